@@ -1,6 +1,8 @@
 import EpModel.Lemmas.DecCopies
 import EpModel.Lemmas.DecLax
 import EpModel.Props.C15
+import EpModel.Lemmas.SpecShift
+import EpModel.Lemmas.SpecShiftEntry
 /-
   C06 — equivalent entry points give equivalent answers.
 
@@ -18,10 +20,26 @@ import EpModel.Props.C15
       IpSlice/LaxIpSlice, which look at the IHL first) is excluded by hypothesis and characterised in
       C03 (`ShortV4`) - both answers reject and both are true of the bytes;
     * starting at the IPv4 / IPv6 ether type equals starting at IP (same packet with the link set);
-    * header readers vs `from_slice` for the IPv4 and IPv6 headers (re-exported from C15's bit-level model).
-  Not proved (checked by correspondence + oracle only): `from_ethernet` = header + `from_ether_type`
-  shifted by 14 - this needs placement independence of the whole model, which is validated at run time
-  on two placements of every input; the remaining header readers (C16 models their I/O).
+    * header readers vs `from_slice` for the IPv4 and IPv6 headers (re-exported from C15's bit-level model);
+    * starting at an Ethernet II header equals starting at its ether type on the bytes behind it, offsets
+      moved by 14 (last section).  The wire-format walk is proved placement independent
+      (Lemmas/SpecShift.lean: `step_shift` for every branch of `Spec.step`, `chain_shift`, `walkN_shift`;
+      the link field is not touched behind the link layer, `walkN_link`; 7 steps suffice from an ether
+      type, `walkN_fuel`), which gives `Spec.decode .eth` = `Spec.decode (.etherType _)` on the shifted
+      memory for strict and lax decoding as an EQUATION; the refinements of C03 / C05 carry it to
+      `SlicedPacket` / `LaxSlicedPacket`: `from_ethernet(b)` and `from_ether_type(et(b), b[14..])` accept
+      the same byte strings, on success return the same packet with every window moved by 14 (link: Ethernet II frame / ether
+      payload), on failure return errors that describe one and the same wire-format fault, seen 14
+      bytes apart (so `layer_start_offset` differs by exactly 14, `len` / `required_len` agree); lax: the
+      same layers in front of the stop, a stop error in one iff in the other, at the same layer,
+      describing the same fault.  What the transfer through the (relational) refinement does not
+      give: that the two errors are the *same value* up to the offset where `ErrMatch` leaves a choice
+      (e.g. which of two crate layers names an ICMPv4 fault, the `len_source` where it may be the slice
+      or the limiting field); that part stays with the correspondence check, which runs both doors.
+  Not proved (checked by correspondence + oracle only): Ethernet II start vs ether-type start for the
+  struct families `PacketHeaders` / `LaxPacketHeaders` (C03 / C05 refine the slice families `SlicedPacket` /
+  `LaxSlicedPacket` only; the oracle compares all four families after shifting by 14); the remaining
+  header readers (C16 models their I/O).
 -/
 namespace EpModel.Props.C06
 open EpModel EpModel.Dec EpModel.Lemmas.Refine EpModel.Lemmas.Copies
@@ -97,5 +115,209 @@ theorem udp_within (g : Mem) (o l : Nat) (w : Win) (h : udpFromSlice g o l = .ok
       · split at h
         · contradiction
         · cases h; simp; omega
+
+/-! ### starting at an Ethernet II header = starting at its ether type on the bytes behind it
+
+  Proved at the level of the wire-format walk (Lemmas/SpecShift.lean: every step of `Spec.step`, the IPv6
+  extension chain and the whole walk commute with moving the memory, i.e. the walk is placement
+  independent) and transferred to the models of the four doors through the refinements of C03 / C05. -/
+
+section EthernetVsEtherType
+open EpModel.Spec EpModel.Lemmas.ShiftEntry EpModel.Lemmas.RefineLax
+
+/-- Wire-format reading, strict: decoding `n ≥ 14` bytes from the Ethernet II header gives the verdict
+    of decoding the bytes behind the header (the memory seen from offset 14) from the header's ether
+    type; the packet is the same with every window moved by 14 and the Ethernet II frame as link, the
+    fault is the same with its offset moved by 14. -/
+theorem spec_ethernet_start_equals_ether_type_start (g : Mem) (n : Nat) (h : 14 ≤ n) :
+    Spec.decode .eth g n =
+      match Spec.decode (.etherType (g16 g 12)) (shM 14 g) (n - 14) with
+      | .ok p => .ok (setLk (some (.eth2 ⟨0, n⟩)) (shPacket 14 p))
+      | .error f => .error (shFault 14 f) :=
+  decode_eth_eq_ether_type g n h
+
+/-- … and lax: the same layers in front of the fault (moved by 14), the same fault (moved by 14). -/
+theorem spec_lax_ethernet_start_equals_ether_type_start (g : Mem) (n : Nat) (h : 14 ≤ n) :
+    Spec.decodeLax .eth g n =
+      (setLk (some (.eth2 ⟨0, n⟩)) (shPacket 14 (Spec.decodeLax (.etherType (g16 g 12)) (shM 14 g) (n - 14)).1),
+        (Spec.decodeLax (.etherType (g16 g 12)) (shM 14 g) (n - 14)).2.map (shFault 14)) :=
+  decodeLax_eth_eq_ether_type g n h
+
+/-- the memory of the bytes behind the first `k` is the memory seen from offset `k` -/
+theorem memOf_drop (b : Bytes) (k i : Nat) : memOf (b.drop k) i = memOf b (k + i) :=
+  EpModel.Lemmas.ShiftEntry.memOf_drop b k i
+
+/-- **`SlicedPacket::from_ethernet(b)` against `SlicedPacket::from_ether_type(ether type of b, b[14..])`**,
+    for every byte string of at least 14 bytes: both succeed or both fail; on success the packets are
+    the same with every window moved by 14 (link: the Ethernet II frame / the ether payload handed in);
+    on failure both errors describe one and the same wire-format fault `f` of the bytes behind the
+    header (`ErrMatch`: layer, offset, available and required bytes, length source / offending value),
+    seen from the frame with its offset moved by 14. -/
+theorem ethernet_start_equals_ether_type_start (b : Bytes) (h14 : 14 ≤ b.length) :
+    match slicedFromEthernet (memOf b) b.length,
+      slicedFromEtherType (memOf (b.drop 14)) (g16 (memOf b) 12) (b.drop 14).length with
+    | .ok p, .ok q =>
+      p = setLk (some (.eth2 ⟨0, b.length⟩)) (shPacket 14 q) ∧
+        q.link = some (.etherPayload (g16 (memOf b) 12) ⟨0, b.length - 14⟩)
+    | .error e, .error e' => ∃ f, ErrMatch e' f ∧ ErrMatch e (shFault 14 f)
+    | _, _ => False := by
+  rw [memOf_drop_eq, List.length_drop]
+  exact from_ethernet_vs_ether_type (memOf b) (fun i => bAt_lt b i) b.length h14
+
+/-- (i) the two doors accept the same byte strings -/
+theorem ethernet_start_ok_iff_ether_type_start_ok (b : Bytes) (h14 : 14 ≤ b.length) :
+    (slicedFromEthernet (memOf b) b.length).isOk =
+      (slicedFromEtherType (memOf (b.drop 14)) (g16 (memOf b) 12) (b.drop 14).length).isOk := by
+  have h := ethernet_start_equals_ether_type_start b h14
+  revert h
+  cases slicedFromEthernet (memOf b) b.length <;>
+    cases slicedFromEtherType (memOf (b.drop 14)) (g16 (memOf b) 12) (b.drop 14).length <;>
+    simp [Except.isOk, Except.toBool]
+
+/-- (ii) on success: the Ethernet II frame resp. the ether payload as link, and the same link
+    extensions, network and transport layers with every window moved by 14 -/
+theorem ethernet_start_packet_is_ether_type_start_packet_shifted (b : Bytes) (h14 : 14 ≤ b.length)
+    (p q : Packet) (hp : slicedFromEthernet (memOf b) b.length = .ok p)
+    (hq : slicedFromEtherType (memOf (b.drop 14)) (g16 (memOf b) 12) (b.drop 14).length = .ok q) :
+    p.link = some (.eth2 ⟨0, b.length⟩) ∧
+      q.link = some (.etherPayload (g16 (memOf b) 12) ⟨0, b.length - 14⟩) ∧
+      p.exts = q.exts.map (shExt 14) ∧ p.net = q.net.map (shNet 14) ∧ p.tp = q.tp.map (shTp 14) ∧
+      p.stop = q.stop := by
+  have h := ethernet_start_equals_ether_type_start b h14
+  rw [hp, hq] at h
+  obtain ⟨h1, h2⟩ := h
+  subst h1
+  exact ⟨rfl, h2, rfl, rfl, rfl, rfl⟩
+
+/-- (iii) on failure with a length error: the other door fails with a length error as well, the
+    `layer_start_offset`s differ by exactly 14, `len` and `required_len` agree, and both layers name the
+    unit of one wire-format fault -/
+theorem ethernet_start_len_error_is_ether_type_start_len_error_shifted (b : Bytes) (h14 : 14 ≤ b.length)
+    (le : LenError) (he : slicedFromEthernet (memOf b) b.length = .error (.len le)) :
+    ∃ le', slicedFromEtherType (memOf (b.drop 14)) (g16 (memOf b) 12) (b.drop 14).length = .error (.len le') ∧
+      le.off = 14 + le'.off ∧ le.len = le'.len ∧ le.req = le'.req ∧
+      ∃ f, LenMatch le' f ∧ LenMatch le (shFault 14 f) := by
+  have h := ethernet_start_equals_ether_type_start b h14
+  rw [he] at h
+  cases hq : slicedFromEtherType (memOf (b.drop 14)) (g16 (memOf b) 12) (b.drop 14).length with
+  | ok q => rw [hq] at h; exact h.elim
+  | error e' =>
+    rw [hq] at h
+    obtain ⟨f, h1, h2⟩ := h
+    have h2' : LenMatch le (shFault 14 f) := h2
+    have hc : f.cls ≠ .content := h2'.cls
+    cases e' with
+    | len le' =>
+      have h1' : LenMatch le' f := h1
+      have k := lenMatch_shift_off h2' h1'
+      exact ⟨le', rfl, k.1, k.2.1, k.2.2, f, h1', h2'⟩
+    | _ => exact absurd h1.1 hc
+
+/-- … and with a content error: the other door fails with a content error about the same fault -/
+theorem ethernet_start_content_error_is_ether_type_start_content_error (b : Bytes) (h14 : 14 ≤ b.length)
+    (e : PErr) (hne : ∀ le, e ≠ .len le) (he : slicedFromEthernet (memOf b) b.length = .error e) :
+    ∃ e', slicedFromEtherType (memOf (b.drop 14)) (g16 (memOf b) 12) (b.drop 14).length = .error e' ∧
+      (∀ le, e' ≠ .len le) ∧ ∃ f, ContentMatch e' f ∧ ContentMatch e (shFault 14 f) := by
+  have h := ethernet_start_equals_ether_type_start b h14
+  rw [he] at h
+  cases hq : slicedFromEtherType (memOf (b.drop 14)) (g16 (memOf b) 12) (b.drop 14).length with
+  | ok q => rw [hq] at h; exact h.elim
+  | error e' =>
+    rw [hq] at h
+    obtain ⟨f, h1, h2⟩ := h
+    have h2' : ContentMatch e (shFault 14 f) := by
+      cases e with
+      | len le => exact absurd rfl (hne le)
+      | _ => exact h2
+    have hc : f.cls = .content := h2'.1
+    cases e' with
+    | len le' => exact absurd hc (LenMatch.cls h1)
+    | _ => exact ⟨_, rfl, fun le => by simp, f, h1, h2'⟩
+
+/-- fewer than 14 bytes: the Ethernet II door fails at the Ethernet II header (there is no ether type
+    to start from) -/
+theorem ethernet_start_short (b : Bytes) (h : b.length < 14) :
+    slicedFromEthernet (memOf b) b.length =
+        .error (.len { req := 14, len := b.length, src := .slice, layer := .ethernet2Header, off := 0 }) ∧
+      laxSlicedFromEthernet (memOf b) b.length =
+        .error { req := 14, len := b.length, src := .slice, layer := .ethernet2Header, off := 0 } ∧
+      Spec.decode .eth (memOf b) b.length =
+        .error { cls := .cutShort, unit := .eth, off := 0, avail := b.length, need := 14, lim := .slice, value := 0 } := by
+  refine ⟨?_, ?_, ?_⟩
+  · simp [slicedFromEthernet, eth2FromSlice, h, LenError.addOffset]
+  · simp [laxSlicedFromEthernet, eth2FromSlice, h]
+  · rw [decode_eth_short (memOf b) b.length h]; simp [mkFault, Ctx.avail]
+
+/-- **`LaxSlicedPacket::from_ethernet(b)` against `LaxSlicedPacket::from_ether_type(ether type of b, b[14..])`**,
+    for every byte string of at least 14 bytes: `from_ethernet` returns a packet; without their stop
+    errors the two packets are the same with every window moved by 14 (link: Ethernet II frame / ether
+    payload); one has a stop error exactly when the other has, at the same layer, and both stop errors
+    describe one wire-format fault `f` of the bytes behind the header, seen from the frame with its
+    offset moved by 14 (`StopDescribes` = the relation of the lax refinement C05, short-IPv4 wrinkle
+    included). -/
+theorem lax_ethernet_start_equals_ether_type_start (b : Bytes) (h14 : 14 ≤ b.length) :
+    ∃ m, laxSlicedFromEthernet (memOf b) b.length = .ok m ∧
+      noStop m = setLk (some (.eth2 ⟨0, b.length⟩))
+        (shPacket 14 (noStop (laxSlicedFromEtherType (memOf (b.drop 14)) (g16 (memOf b) 12) (b.drop 14).length))) ∧
+      (laxSlicedFromEtherType (memOf (b.drop 14)) (g16 (memOf b) 12) (b.drop 14).length).link =
+        some (.etherPayload (g16 (memOf b) 12) ⟨0, b.length - 14⟩) ∧
+      match m.stop, (laxSlicedFromEtherType (memOf (b.drop 14)) (g16 (memOf b) 12) (b.drop 14).length).stop with
+      | none, none => True
+      | some (e, ly), some (e', ly') =>
+        ly = ly' ∧ ∃ f, StopDescribes (memOf (b.drop 14)) e' ly' f ∧ StopDescribes (memOf b) e ly (shFault 14 f)
+      | _, _ => False := by
+  rw [memOf_drop_eq, List.length_drop]
+  exact lax_from_ethernet_vs_ether_type (memOf b) (fun i => bAt_lt b i) b.length h14
+
+/-- consequence for lax length stop errors: offsets differ by exactly 14, `len` agrees (this part holds
+    also on the input class of the short-IPv4 wrinkle) -/
+theorem lax_ethernet_start_stop_len_error_shifted (b : Bytes) (h14 : 14 ≤ b.length) (m : Packet)
+    (hm : laxSlicedFromEthernet (memOf b) b.length = .ok m) (le le' : LenError) (ly ly' : Layer)
+    (hs : m.stop = some (.len le, ly))
+    (hs' : (laxSlicedFromEtherType (memOf (b.drop 14)) (g16 (memOf b) 12) (b.drop 14).length).stop =
+      some (.len le', ly')) :
+    ly = ly' ∧ le.off = 14 + le'.off ∧ le.len = le'.len := by
+  obtain ⟨m0, hm0, _, _, h⟩ := lax_ethernet_start_equals_ether_type_start b h14
+  rw [hm] at hm0
+  cases hm0
+  rw [hs, hs'] at h
+  obtain ⟨hl, f, h1, h2⟩ := h
+  refine ⟨hl, ?_⟩
+  have k1 : le'.off = f.off ∧ le'.len = f.avail := by
+    rcases h1 with h1 | h1
+    · have : LenMatch le' f := h1.2
+      exact ⟨this.off, this.len⟩
+    · obtain ⟨_, _, _, _, _, _, _, h1 | h1⟩ := h1
+      · exact absurd h1.2 (by simp)
+      · obtain ⟨_, s, _, hs⟩ := h1
+        cases hs; exact ⟨rfl, rfl⟩
+  have k2 : le.off = 14 + f.off ∧ le.len = f.avail := by
+    rcases h2 with h2 | h2
+    · have : LenMatch le (shFault 14 f) := h2.2
+      exact ⟨this.off, this.len⟩
+    · obtain ⟨_, _, _, _, _, _, _, h2 | h2⟩ := h2
+      · exact absurd h2.2 (by simp)
+      · obtain ⟨_, s, _, hs⟩ := h2
+        cases hs; exact ⟨rfl, rfl⟩
+  rw [k1.1, k1.2, k2.1, k2.2]
+  exact ⟨rfl, rfl⟩
+
+/-! the hypotheses are satisfiable and the success case is inhabited: an ARP request in an Ethernet II frame -/
+
+def arpFrame : Bytes :=
+  [0,0,0,0,0,0, 0,0,0,0,0,0, 0x08,0x06, 0,1,8,0,6,4,0,1, 1,2,3,4,5,6, 10,0,0,1, 0,0,0,0,0,0, 10,0,0,2]
+
+set_option maxRecDepth 4000 in
+example : slicedFromEthernet (memOf arpFrame) arpFrame.length =
+    .ok { link := some (.eth2 ⟨0, 42⟩), exts := [], net := some (.arp ⟨14, 28⟩), tp := none, stop := none } := by
+  rfl
+
+set_option maxRecDepth 4000 in
+example : slicedFromEtherType (memOf (arpFrame.drop 14)) (g16 (memOf arpFrame) 12) (arpFrame.drop 14).length =
+    .ok { link := some (.etherPayload 0x0806 ⟨0, 28⟩), exts := [], net := some (.arp ⟨0, 28⟩), tp := none,
+          stop := none } := by
+  rfl
+
+end EthernetVsEtherType
 
 end EpModel.Props.C06
